@@ -93,6 +93,7 @@ def run_harness(c, binary, seed, ncases, nops, extra=(), batch=5, workers=6, bas
                 old = c_["idx"]
                 c_["idx"] = base + len(cases)
                 c_["batch_seed"] = sd
+                c_["args"] = " ".join(extra)
                 c_["batch_idx"] = old
                 # interned names carry the per-process case index: make them globally unique
                 ren = {n: "g%d_%s" % (c_["idx"], n) for n, _ in c_["bdefs"]}
@@ -263,7 +264,7 @@ def mon_failed(val):
     return val not in ("None", "true")
 
 
-def mirror_check(c, prop_file, monitors, what, quick=(40, 30), thorough=(600, 40), extra=(), prove=True):
+def mirror_check(c, prop_file, monitors, what, quick=(40, 30), thorough=(600, 40), extra=(), prove=True, templates=()):
     """Common body of the mirror-kernel checks. monitors: names from MON_EXPRS that decide this property."""
     c.trusted += [
         "translator /verif/translate for kState.FindView and the result enumerations (Gen/Kernel.v), thresholds (Gen/Math.v)",
@@ -298,6 +299,18 @@ def mirror_check(c, prop_file, monitors, what, quick=(40, 30), thorough=(600, 40
         rp = json.load(open(c.replay))
         seeds = [(rp.get("batch_seed"), rp.get("batch_cases", 5), rp.get("ops", nops))]
     cases, stats, crashes = run_harness(c, binary, c.seed, ncases, nops, extra=["-replay"] + list(extra))
+    # histories built around one interleaving template of the harness (a sequence random choice rarely lines up, e.g. 8 =
+    # commit by a bare quorum next to a nil precommit, then next-height proposals whose commit proof backfills the
+    # committing view; 9 = a fork attempt by a Byzantine majority): a batch per template in which it starts every 3rd step
+    for t in templates:
+        nt = 10 if c.tier == "quick" else 60
+        cs2, st2, cr2 = run_harness(c, binary, c.seed + 7919 * (t + 1), nt, nops,
+                                    extra=["-replay", "-template", str(t)] + list(extra), base=len(cases))
+        cases += cs2
+        crashes += cr2
+        for k, v in st2.items():
+            stats[k] = stats.get(k, 0) + v
+        stats["template_%d_cases" % t] = len(cs2)
     for cr in crashes[:2]:
         # the real mirror died (kernel panic) or the harness gave up: that batch's histories are incomplete, so the
         # correspondence is not established for them; C09's kernel part reports the panic itself with its history
@@ -310,7 +323,7 @@ def mirror_check(c, prop_file, monitors, what, quick=(40, 30), thorough=(600, 40
                     "bdefs": dict(died[0]["bdefs"][:200])}
             if died[0].get("attempt") and (not died[0]["steps"] or died[0]["steps"][-1][0] != died[0]["attempt"]):
                 hist["local_action_being_delivered"] = died[0]["attempt"]
-        rp = {"batch_seed": cr["batch_seed"], "how": "bin/h_mirror -seed %d -cases 5 -ops %d %s" % (cr["batch_seed"], nops, " ".join(["-replay"] + list(extra)))}
+        rp = {"batch_seed": cr["batch_seed"], "how": "bin/h_mirror -seed %d -cases 5 -ops %d %s" % (cr["batch_seed"], nops, cr.get("args") or " ".join(["-replay"] + list(extra)))}
         rp.update(hist)
         c.fail_obligation("harness-run: the real mirror died during a generated history",
                           (m.group(1) if m else "exit %s" % cr["rc"])[:300] + "\n" + cr["stderr"][-1200:], rp)
@@ -358,7 +371,7 @@ def mirror_check(c, prop_file, monitors, what, quick=(40, 30), thorough=(600, 40
                  {"batch_seed": k["batch_seed"], "batch_case": k["batch_idx"], "ops": len(k["steps"]), "failing_step": step, "monitor": m,
                   "monitor_value": val, "steps": [{"op": op, "impl_result": res} for op, res, _ in k["steps"][:upto]],
                   "impl_observation_at_failure": k["steps"][upto - 1][2] if k["steps"] else None,
-                  "how": "bin/h_mirror -seed %d -cases %d -ops %d %s (case %d)" % (k["batch_seed"], k["batch_idx"] + 1, nops, " ".join(["-replay"] + list(extra)), k["batch_idx"])})
+                  "how": "bin/h_mirror -seed %d -cases %d -ops %d %s (case %d)" % (k["batch_seed"], k["batch_idx"] + 1, nops, k.get("args") or " ".join(["-replay"] + list(extra)), k["batch_idx"])})
     concrete = any(v[3] for v in c.violations)  # a violation with a failing input (known findings excluded)
     if corr_bad and not concrete:
         k, corr = corr_bad[0]
